@@ -98,7 +98,7 @@ FSTRINGS = st.builds(
     lambda p, q, parts: p + q + ''.join(parts) + q,
     st.sampled_from(['f', 'F', 'rf', 'fr', 'Rf', 'FR']),
     st.sampled_from(['"', "'", '"""', "'''"]),
-    st.lists(st.sampled_from(['{x:\\t<10}', '{x!r:\\x20>8}', '{x:{w}\\n}', '\\n', '{x:\\N{BULLET}^9}', 'a', ' ', '{x}', '{x!r}', '{x:>10}', '{x:{w}}', '{{', '}}', '{x + 1}', '{x.y}', '{x[0]}', '{x!s:^{w}.{p}}',
+    st.lists(st.sampled_from(['return', 'break', 'yield', 'continue', 'await', 'pass', '*', '**', 'global x', 'from', '{x:\\t<10}', '{x!r:\\x20>8}', '{x:{w}\\n}', '\\n', '{x:\\N{BULLET}^9}', 'a', ' ', '{x}', '{x!r}', '{x:>10}', '{x:{w}}', '{{', '}}', '{x + 1}', '{x.y}', '{x[0]}', '{x!s:^{w}.{p}}',
                               '{f(x)}', '{x,}', '{(lambda: 1)()}', '{x if y else z}', '{x:%Y-%m}', '{3.14:10.10}', '{x = }', '{x=!r}']),
              max_size=4))
 ATOMS = st.one_of(NAMES, NAMES, NUMBERS, STRINGS, FSTRINGS, st.sampled_from(['None', 'True', 'False', '...', '()', '[]', '{}', '(x,)',
@@ -120,6 +120,9 @@ def exprs(depth=3):
         st.builds(lambda a: '(' + a + ')', sub),
         st.builds(lambda f, n, a: '%s(%s := %s)' % (f, n, a), NAMES, st.sampled_from(['x', 'y', 'n']), sub),
         st.builds(lambda f, n, a: '%s(a, (%s := %s))' % (f, n, a), NAMES, st.sampled_from(['x', 'y', 'n']), sub),
+        st.builds(lambda f, n, a, b: '%s(%s := %s, %s)' % (f, n, a, b), NAMES, st.sampled_from(['x', 'y', 'n']), sub, sub),
+        st.builds(lambda a, b: '[(lambda: (q := %s)) for i in %s]' % (a, b), sub, NAMES),
+        st.builds(lambda a, b: '[*%s, *%s][0]' % (a, b), NAMES, NAMES),
         st.builds(lambda f, a, b: '%s(%s, k=%s)' % (f, a, b), NAMES, sub, sub),
         st.builds(lambda f, a: '%s(*%s, **%s)' % (f, a, a), NAMES, NAMES),
         st.builds(lambda a, b: '%s[%s]' % (a, b), NAMES, sub),
@@ -155,6 +158,10 @@ def stmts(depth=2):
         st.builds(lambda n: 'del %s, y[0], z.a\n' % n, NAMES),
         st.builds(lambda n, m: 'import %s.%s as q\n' % (n, m), st.sampled_from(['os', 'a', 'pkg']), st.sampled_from(['path', 'b', 'mod'])),
         st.builds(lambda n, m: 'from .%s import (%s as r,\n    s)\n' % (n, m), st.sampled_from(['', 'a', '.a.b']), st.sampled_from(['x', 'y'])),
+        st.just('[*a, *b][0] = 1\n'), st.just('[*a, *b][0], c = 1, 2\n'), st.just('x = [i for i in y]; del x\n'),
+        st.builds(lambda n: ''.join(' ' * i + 'if x:\n' for i in range(n)) + ' ' * n + 'pass\n', st.integers(15, 21)),
+        st.builds(lambda n: 'def f():\n' + ''.join(' ' * (i + 1) + 'while x:\n' for i in range(n)) + ' ' * (n + 1) + 'pass\n', st.integers(17, 20)),
+        st.just('for q in z:\n    try:\n        pass\n    finally:\n        for w in z:\n            continue\n'),
         st.just('from . import *\n'), st.just('import numpy as np, pathlib\n'), st.just('import a.b as c, d.e, f as g, h\n'),
         st.just('from a import (b as c, d, e as f)\n'), st.just('from __future__ import annotations\n'), st.just('pass\n'),
         st.builds(lambda a, b: 'x = 1; %s; y = 2\n' % a.strip(), e, e),
